@@ -1,8 +1,134 @@
 import BddVerif.Drive.Util
-/-! Driver for C17 — stub, to be written. -/
+import BddVerif.Core.ApplyCanon
+import BddVerif.Model.Rename
+/-!
+Driver for C17. For every case the model (`Model/Rename.lean`) is re-run and compared with the observed
+outcome (`|…|`, `none`, `panic`), and the property's own predicate is evaluated on the OBSERVED result
+with definitions that do not use the model: `wfoB` (valid diagram), truth tables by `evalArr`, `isCanon`,
+and a support / name correspondence computed here by brute force.
+-/
 namespace B.Drive.C17
-open B B.Drive
+open B B.Drive B.Ren
 
-def handle (key : String) (_ins _obs : List String) : Verdict := Verdict.bad ("key " ++ key)
+def maxTT : Nat := 12
+
+def showOutcome : Outcome Arr → String
+  | .ok r => showArr r
+  | .err _ => "none"
+  | .panic _ => "panic"
+
+def parseMap? (s : String) : Option (List (Nat × Nat)) :=
+  if s == "~" then some [] else
+  (s.splitOn ",").mapM fun kv =>
+    match kv.splitOn ":" with
+    | [k, v] => match k.toNat?, v.toNat? with
+      | some k, some v => some (k, v)
+      | _, _ => none
+    | _ => none
+
+def parseNames (s : String) : List String := if s == "~" then [] else s.splitOn ","
+
+/-- brute-force support: variables `x` such that some node with index ≥ 2 is labelled `x` -/
+def supp (A : Arr) : List Nat :=
+  let vars := (A.toList.drop 2).map (·.var)
+  (List.range (vars.foldl max 0 + 1)).filter fun x => vars.contains x
+
+def firstFail (xs : List (Option String)) : Option String := xs.findSome? id
+
+/-- `r` is a valid diagram over `m` variables, `r(v) = b(v ∘ g)` on all valuations of the first `N`
+    variables, and canonicity is kept -/
+def checkResult (b r : Arr) (m N : Nat) (g : Nat → Option Nat) : Option String :=
+  firstFail [
+    if wfoB r m then none else some "result-not-a-valid-diagram",
+    if N > maxTT then none else
+      if (List.range (2 ^ N)).all fun i =>
+        let v := valOfIndex N i
+        evalArr r v == evalArr b (fun x => match g x with | some y => (decide (y < N) && v y) | none => false)
+      then none else some "function-changed",
+    if isCanon b && !isCanon r then some "canonicity-lost" else none ]
+
+def kindTag (obs : String) : String :=
+  if obs == "panic" then "panic" else if obs == "none" then "none" else "ok"
+
+def inputTag (b : Arr) (n : Nat) : String :=
+  if !wfoB b n then "invalid-input" else if isCanon b then "canonical" else "noncanonical"
+
+def handle (key : String) (ins obs : List String) : Verdict :=
+  match key, ins, obs with
+  | "C17.setnv", [bs, nvs], [res] =>
+    match parseArr? bs, nvs.toNat? with
+    | some b, some nv =>
+      let n := numVars b
+      let model := showOutcome (setNumVars b nv)
+      let valid := wfoB b n
+      let fail :=
+        if !valid then none else
+        match parseArr? res with
+        | some r => firstFail [
+            if numVars r == nv then none else some "variable-count-not-set",
+            checkResult b r nv (if max n nv ≤ maxTT then max n nv else n) (fun x => some x)]
+        | none => if res == "panic" then none else some ("outcome:" ++ res)
+      { agree := model == res, model, fail, nontrivial := valid && b.size > 2,
+        tags := ["setnv", kindTag res, inputTag b n] }
+    | _, _ => Verdict.bad "args"
+  | "C17.renvars", [bs, ms], [res] =>
+    match parseArr? bs, parseMap? ms with
+    | some b, some m =>
+      let n := numVars b
+      let π := varMapOfList m
+      let model := showOutcome (renameVariables b π)
+      let valid := wfoB b n
+      let fail :=
+        if !valid then none else
+        match parseArr? res with
+        | some r => checkResult b r n n (fun x => some (applyMap π x))
+        | none => if res == "panic" then none else some ("outcome:" ++ res)
+      { agree := model == res, model, fail, nontrivial := valid && b.size > 2,
+        tags := ["renvars", kindTag res, inputTag b n] ++ (if m.any (·.1 == n) then ["key-num_vars"] else []) }
+    | _, _ => Verdict.bad "args"
+  | "C17.renvar", [bs, os, ns], [res] =>
+    match parseArr? bs, os.toNat?, ns.toNat? with
+    | some b, some old, some new =>
+      let n := numVars b
+      let model := showOutcome (renameVariable b old new)
+      let valid := wfoB b n
+      let fail :=
+        if !valid then none else
+        match parseArr? res with
+        | some r => checkResult b r n n (fun x => some (if x = old then new else x))
+        | none => if res == "panic" then none else some ("outcome:" ++ res)
+      { agree := model == res, model, fail, nontrivial := valid && b.size > 2,
+        tags := ["renvar", kindTag res, inputTag b n] }
+    | _, _, _ => Verdict.bad "args"
+  | "C17.transfer", [bs, ss, ts], [res] =>
+    match parseArr? bs with
+    | some b =>
+      let n := numVars b
+      let src := parseNames ss
+      let tgt := parseNames ts
+      let model := showOutcome (transferFrom tgt b src)
+      -- the property speaks about a Bdd valid in the source set, and sets with distinct names
+      let applicable := wfoB b n && src.length == n && src.eraseDups.length == src.length &&
+        tgt.eraseDups.length == tgt.length
+      let sup := supp b
+      let g : Nat → Option Nat := fun x => match src[x]? with | some nm => tgt.findIdx? (· == nm) | none => none
+      let image := sup.map g
+      let increasing := (List.range image.length).all fun i => (List.range image.length).all fun j =>
+        !(decide (i < j)) || (match image[i]?, image[j]? with | some (some a), some (some c) => decide (a < c) | _, _ => false)
+      let expectSome := image.all (·.isSome) && increasing
+      let fail :=
+        if !applicable then none else
+        match parseArr? res with
+        | some r => firstFail [
+            if expectSome then none else some "accepted-a-Bdd-that-cannot-be-transferred",
+            if numVars r == tgt.length then none else some "wrong-variable-count",
+            checkResult b r tgt.length tgt.length g]
+        | none =>
+          if res == "none" then (if expectSome then some "refused-a-transferable-Bdd" else none)
+          else some ("outcome:" ++ res)
+      { agree := model == res, model, fail, nontrivial := applicable && b.size > 2,
+        tags := ["transfer", kindTag res, if applicable then inputTag b n else "inapplicable"] }
+    | none => Verdict.bad "args"
+  | _, _, _ => Verdict.bad ("key " ++ key)
 
 end B.Drive.C17
